@@ -317,6 +317,21 @@ def oracle_step(ctx, rec: Rec, st: dict, post: dict, mode: str, has_reset: bool,
                 if not np.array_equal(w1, mid["Wv"][k], equal_nan=True):
                     ctx.issue("violation", f"{tag}:rate:{what}", f"step {st['g']}: category {k} is not update(x, w, "
                               f"beta={prm['beta']})", repl)
+                else:
+                    # and an independent evaluation of the published update rule at that rate
+                    try:
+                        from .C03 import reference
+                        cls_name = type(base).__name__
+                        dd = len(x) // 2 if cls_name == "FuzzyART" else len(x)
+                        with np.errstate(all="ignore"):
+                            wr = reference(cls_name, prm, dd, np.asarray(x, dtype=float), np.asarray(w0, dtype=float), [1])[2]
+                        if wr.shape != w1.shape or not np.allclose(wr, mid["Wv"][k], rtol=1e-9, atol=1e-9, equal_nan=True):
+                            ctx.issue("violation", f"{tag}:rate:{what}:published-rule",
+                                      f"step {st['g']}: category {k} became {np.asarray(mid['Wv'][k]).tolist()}, the update rule at "
+                                      f"beta={prm['beta']} gives {wr.tolist()}", repl)
+                        cov.hit("rate-vs-published-rule")
+                    except (KeyError, ZeroDivisionError):
+                        pass
     # ---- which categories: the statement, without a reset function
     if not has_reset:
         op = m._match_tracking_operator(mode)
